@@ -374,6 +374,11 @@ pub fn ring_ratio_ops(s: &mut Src) -> R {
     ob!(canon(&(-&x), -a, b), "Ratio::neg-lowest-terms-and-value");
     if c != 0 { ob!(canon(&(&x / &y), a * d, b * c), "Ratio::div-lowest-terms-and-value"); }
     ob!((x == y) == (a * d == c * b), "Ratio::eq-iff-same-rational");
+    {
+        let (p1, q1, p2, q2) = (*x.numer() as i128, *x.denom() as i128, *y.numer() as i128, *y.denom() as i128);
+        ob!(x.cmp(&y) == (p1 * q2).cmp(&(p2 * q1)), "Ratio::cmp-is-order-of-Q");
+        ob!((x.cmp(&y) == std::cmp::Ordering::Equal) == (x == y), "Ratio::cmp-Equal-iff-eq");
+    }
     ob!(((&x + &y) - &y) == x, "Ratio::(x+y)-y==x");
     let mut t = x.clone(); t += &y; let mut u = x.clone(); u *= y.clone(); let mut w = x.clone(); w -= &y;
     ob!(t == &x + &y && u == &x * &y && w == &x - &y && x.clone() + y.clone() == &x + &y, "Ratio::operator-forms-agree");
